@@ -520,6 +520,8 @@ func (s *symb) expr0(v ssa.Value) *Sym {
 		return &Sym{Op: "conv:" + x.Type().String(), Args: []*Sym{s.expr(x.X)}, Val: v}
 	case *ssa.ChangeType:
 		return s.expr(x.X)
+	case *ssa.MakeInterface:
+		return s.expr(x.X) // boxing keeps the value
 	}
 	return leaf("unknown", fmt.Sprintf("?%T", v), v)
 }
@@ -708,4 +710,59 @@ func lastInstr(b *ssa.BasicBlock) ssa.Instruction {
 		return nil
 	}
 	return b.Instrs[len(b.Instrs)-1]
+}
+
+// symStore is one store as the analysed function sees it: stores made by package helpers that were handed a
+// pointer are included, their address and value rendered with the helper's parameters replaced by the arguments.
+type symStore struct {
+	addr, val *Sym
+	st        *ssa.Store
+	fn        *ssa.Function // where the store instruction lives
+	sy        *symb
+	via       *ssa.Call // outermost call in the analysed function (nil for its own stores)
+}
+
+// symStoresOf lists the stores of f and of the helpers of its package it hands a pointer to (two levels).
+func symStoresOf(f *ssa.Function, s *symb) []symStore {
+	return symStoresDeep(f, s, nil, 0)
+}
+
+func symStoresDeep(f *ssa.Function, s *symb, via *ssa.Call, depth int) []symStore {
+	var out []symStore
+	instrs(f, func(in ssa.Instruction) {
+		switch x := in.(type) {
+		case *ssa.Store:
+			out = append(out, symStore{addr: s.expr(x.Addr), val: s.expr(x.Val), st: x, fn: f, sy: s, via: via})
+		case *ssa.Call:
+			g := x.Call.StaticCallee()
+			if g == nil || g.Blocks == nil || g.Pkg != f.Pkg || g == f || depth >= 2 || symNoInline[g] {
+				return
+			}
+			if n := g.Name(); n == "" || (n[0] >= 'A' && n[0] <= 'Z') {
+				return
+			}
+			hasPtr := false
+			for _, a := range x.Call.Args {
+				if _, ok := a.Type().Underlying().(*types.Pointer); ok {
+					hasPtr = true
+				}
+			}
+			if !hasPtr {
+				return
+			}
+			sub := newSymb(g)
+			sub.depth = s.depth + 1
+			for i, p := range g.Params {
+				if i < len(x.Call.Args) {
+					sub.subst[p] = s.expr(x.Call.Args[i])
+				}
+			}
+			top := via
+			if top == nil {
+				top = x
+			}
+			out = append(out, symStoresDeep(g, sub, top, depth+1)...)
+		}
+	})
+	return out
 }
